@@ -435,7 +435,12 @@ def rule_writer_order(repo, rep):
         raise AnalysisError("serialise_subgraph: the operator list `all_ops` is not filled by append")
     for c in apps:
         loops = [l for l in ast.walk(f) if isinstance(l, ast.For) and any(x is c for x in ast.walk(l))]
-        iters = [str(norm(l.iter)) for l in loops]
+        def unwrap(e):
+            while isinstance(e, ast.Call) and isinstance(e.func, ast.Name) and e.func.id in ("list", "tuple", "iter") and len(e.args) == 1:
+                e = e.args[0]
+            return e
+
+        iters = [str(norm(unwrap(l.iter))) for l in loops]
         ok = any(i.endswith(".passes") for i in iters) and any(i.endswith(".ops") for i in iters)
         rep.check(ok, "C12-o", site, f"`{norm(c)}` inside `for .. in sg.passes: for .. in ps.ops` (loops over {iters})",
                   f"the operator list is filled from {iters}: a traversal other than the pass order; with two independent branches the offsets (planned for the pass order) put a tensor under one that is still live")
